@@ -769,6 +769,11 @@ class EventGenerator:
         for key, val in value.attributes.items():
             yield XmlWriterEvent.ATTR, key, val
 
+        if QNames.XSI_NIL in value.attributes:
+            # The attribute belongs to the document, flush the start tag
+            # before the writer can mistake it for its own nil marker.
+            yield XmlWriterEvent.DATA, None
+
         yield XmlWriterEvent.DATA, value.text
 
         for child in value.children:
